@@ -31,6 +31,8 @@ class LineScheduler:
         self.switches = 0
         self.max_steps = max_steps
         self.stuck = False
+        self.free = False          # the controlled schedule was given up (a thread blocked on something a suspended thread holds)
+        self.freed = 0
 
     # ---- token passing -----------------------------------------------------------
     def _next_runnable(self, after: int) -> Optional[int]:
@@ -41,6 +43,8 @@ class LineScheduler:
         return None
 
     def _point(self, tid: int) -> None:
+        if self.free:
+            return
         self.step += 1
         if self.step > self.max_steps:
             self.stuck = True
@@ -50,7 +54,20 @@ class LineScheduler:
             if nxt is not None:
                 self.switches += 1
                 self.sems[nxt].release()
-                self.sems[tid].acquire()
+                # Wait for the token.  If the thread that has it makes no progress (it blocks on a lock THIS thread holds - code that
+                # locks is correct code, and a pre-emption inside its critical section must not be turned into a deadlock by the
+                # scheduler), the controlled schedule ends here: every thread runs freely from now on.
+                seen = self.step
+                while not self.sems[tid].acquire(timeout=0.2):
+                    if self.free:
+                        break
+                    if self.step == seen and not all(self.done[j] for j in range(self.n) if j != tid):
+                        self.free = True
+                        self.freed += 1
+                        for sem in self.sems:
+                            sem.release()
+                        break
+                    seen = self.step
 
     def _make_trace(self, tid: int):
         pkg = self.pkg
@@ -68,7 +85,9 @@ class LineScheduler:
         return glob
 
     def _run(self, tid: int) -> None:
-        self.sems[tid].acquire()
+        while not self.sems[tid].acquire(timeout=0.2):
+            if self.free:
+                break
         self.started[tid] = True
         sys.settrace(self._make_trace(tid))
         try:
